@@ -472,6 +472,12 @@ func (t *Tokenizer) Tokenize(input []byte) ([]models.TokenWithSpan, error) {
 				return
 			}
 
+			// Input that ends in a comment makes nextToken report end of input;
+			// the single EOF token is appended after the loop.
+			if token.Type == models.TokenTypeEOF {
+				break
+			}
+
 			tw := models.TokenWithSpan{
 				Token: token,
 				Start: t.toSQLPosition(startPos),
@@ -610,6 +616,12 @@ func (t *Tokenizer) TokenizeContext(ctx context.Context, input []byte) ([]models
 				// nextToken returns structured errors, pass through directly
 				tokenErr = err
 				return
+			}
+
+			// Input that ends in a comment makes nextToken report end of input;
+			// the single EOF token is appended after the loop.
+			if token.Type == models.TokenTypeEOF {
+				break
 			}
 
 			tw := models.TokenWithSpan{
